@@ -49,7 +49,7 @@ def lanes (w : Nat) (A : StateArray) : Spec.Keccak.State w := Spec.Keccak.mkStat
 
 theorem bit_map_range (w : Nat) (g : Nat → Bool) (z : Nat) : bit ((List.range w).map g) z = (decide (z < w) && g z) := by
   by_cases hz : z < w
-  · simp [bit, List.getD_eq_getElem?_getD, List.getElem?_map, List.getElem?_range hz, hz]
+  · simp [bit, List.getD_eq_getElem?_getD, hz]
   · rw [bit_of_length_le (by simp; omega)]; simp [hz]
 
 theorem getLsbD_laneOf (w : Nat) (A : StateArray) (x y z : Nat) :
@@ -150,7 +150,7 @@ theorem chi_agree (w : Nat) (A : StateArray) : lanes w (chi A) = Spec.Keccak.chi
   apply lanes_eq_mkState
   intro x hx y hy z hz
   simp only [chi, mod5_add_one, mod5_add_two, BitVec.getLsbD_xor, BitVec.getLsbD_and, BitVec.getLsbD_not,
-    lane_lanes, getLsbD_laneOf, hz, decide_true, Bool.true_and, Nat.mod_mod, Nat.mod_eq_of_lt hx,
+    lane_lanes, getLsbD_laneOf, hz, decide_true, Bool.true_and, Nat.mod_eq_of_lt hx,
     Nat.mod_eq_of_lt hy, Bool.xor_true]
 
 /-! #### ρ: the walk -/
@@ -218,7 +218,7 @@ theorem walk_offsets : ∀ x < 5, ∀ y < 5,
 theorem rhoOffset_zero : Spec.Keccak.rhoOffset 0 0 = 0 := by decide
 
 /-- every lane is read at the offset the walk gives it -/
-theorem rho_at {w : Nat} (hw : 0 < w) (A : StateArray) (x y z : Nat) (hx : x < 5) (hy : y < 5) (hz : z < w) :
+theorem rho_at {w : Nat} (A : StateArray) (x y z : Nat) (hx : x < 5) (hy : y < 5) (hz : z < w) :
     rho w A x y z = A x y (mod ((z : Int) - (Spec.Keccak.rhoOffset x y : Nat)) w) := by
   rw [rho_eq_fold, (rho_fold w A _ 24).2 x y z]
   have hwk := walk_offsets x hx y hy
@@ -245,7 +245,7 @@ theorem rho_agree {w : Nat} (hw : 0 < w) (A : StateArray) : lanes w (rho w A) = 
   apply lanes_eq_mkState
   intro x hx y hy z hz
   have hm : mod ((z : Int) - (Spec.Keccak.rhoOffset x y : Nat)) w < w := mod_lt _ hw
-  rw [rot_bit hw _ _ z hz, lane_lanes, getLsbD_laneOf, rho_at hw A x y z hx hy hz, Nat.mod_eq_of_lt hx,
+  rw [rot_bit hw _ _ z hz, lane_lanes, getLsbD_laneOf, rho_at A x y z hx hy hz, Nat.mod_eq_of_lt hx,
     Nat.mod_eq_of_lt hy]
   simp [hm]
 
